@@ -2583,6 +2583,9 @@ digest_auth_check_all_inner (struct MHD_Connection *connection,
   /* ** Initial parameters checks and setup ** */
   /* Get client's algorithm */
   c_algo = params->algo3;
+  /* Unknown algorithm token: no bits are set, the next check cannot catch it */
+  if (MHD_DIGEST_AUTH_ALGO3_INVALID == c_algo)
+    return MHD_DAUTH_WRONG_ALGO;
   /* Check whether client's algorithm is allowed by function parameter */
   if (((unsigned int) c_algo) !=
       (((unsigned int) c_algo) & ((unsigned int) malgo3)))
